@@ -98,12 +98,23 @@ func (sdc *signingDoneCheck) listen(
 	sdc.expectedSignersCount = len(attemptMembersIndexes)
 	sdc.doneSigners = make(map[group.MemberIndex]*signingDoneMessage)
 
+	attemptMembers := make(map[group.MemberIndex]bool)
+	for _, memberIndex := range attemptMembersIndexes {
+		attemptMembers[memberIndex] = true
+	}
+
 	go func() {
 		for {
 			select {
 			case netMessage := <-messagesChan:
 				doneMessage, ok := netMessage.Payload().(*signingDoneMessage)
 				if !ok {
+					continue
+				}
+
+				// Only members participating in the given attempt are
+				// expected to confirm the signing is done.
+				if !attemptMembers[doneMessage.senderID] {
 					continue
 				}
 
